@@ -642,6 +642,50 @@ func ruleSortLess1(c *Ctx) {
 			} else {
 				c.R.OK(owner, desc, ce.Pos(), "all %d uses of i/j index the sorted slice itself", uses)
 			}
+			// SORTLESS-3: canonical sorts in rendering code compare the element's own key, untransformed
+			if strings.HasPrefix(owner, "val.") || strings.HasPrefix(owner, "fun.") {
+				okKey := false
+				whyKey := "comparator is not a single `key(i) < key(j)` return"
+				if len(lit.Body.List) == 1 {
+					if r, ok := lit.Body.List[0].(*ast.ReturnStmt); ok && len(r.Results) == 1 {
+						if be, ok := unparen(r.Results[0]).(*ast.BinaryExpr); ok && (be.Op == token.LSS || be.Op == token.GTR) {
+							swap := func(n ast.Node) (string, bool) {
+								if id, ok := n.(*ast.Ident); ok {
+									if o := c.objOf(id); o == ij[0] {
+										return "#j", true
+									} else if len(ij) > 1 && o == ij[1] {
+										return "#i", true
+									}
+								}
+								return "", false
+							}
+							same := func(n ast.Node) (string, bool) {
+								if id, ok := n.(*ast.Ident); ok {
+									if o := c.objOf(id); o == ij[0] {
+										return "#i", true
+									} else if len(ij) > 1 && o == ij[1] {
+										return "#j", true
+									}
+								}
+								return "", false
+							}
+							if sxWith(be.X, same) == sxWith(be.Y, swap) {
+								okKey = true
+								for _, call := range c.calls(be) {
+									nm := c.calleeName(call)
+									if len(call.Args) != 0 || !(strings.HasSuffix(nm, ".String")) {
+										okKey = false
+										whyKey = "sort key is passed through " + nm + ": a transformation that is not injective leaves ties in map-iteration order (rendering no longer canonical)"
+									}
+								}
+							} else {
+								whyKey = "the two sides of the comparison are not the same key of elements i and j"
+							}
+						}
+					}
+				}
+				c.R.Check(okKey, owner, "SORTLESS-3 "+desc+" compares the untransformed key", ce.Pos(), "key(i) < key(j) on the element's own text: distinct keys are never tied", whyKey)
+			}
 			return true
 		})
 	})
@@ -753,6 +797,33 @@ func ruleSortLess2(c *Ctx) {
 	okAll := true
 	why := ""
 	n := 0
+	// an early `return false` is only sound under a condition that implies equal lengths
+	eqLen := "(BinaryExpr (CallExpr Fun:len Args:[(SelectorExpr (IndexExpr " + slice + " Index:" + i.Name() + ") Sel:Kind)]) Op:== Y:(CallExpr Fun:len Args:[(SelectorExpr (IndexExpr " + slice + " Index:" + j.Name() + ") Sel:Kind)]))"
+	eqKind := "(BinaryExpr (SelectorExpr (IndexExpr " + slice + " Index:" + i.Name() + ") Sel:Kind) Op:== Y:(SelectorExpr (IndexExpr " + slice + " Index:" + j.Name() + ") Sel:Kind))"
+	inspectNoLit(lit.Body, func(x ast.Node) bool {
+		is, ok := x.(*ast.IfStmt)
+		if !ok {
+			return true
+		}
+		var disj []ast.Expr
+		var split func(e ast.Expr)
+		split = func(e ast.Expr) {
+			if b, ok := unparen(e).(*ast.BinaryExpr); ok && b.Op == token.LOR {
+				split(b.X)
+				split(b.Y)
+				return
+			}
+			disj = append(disj, e)
+		}
+		split(is.Cond)
+		for _, d := range disj {
+			if got := c.sxInl(d, defs); got != eqLen && got != eqKind {
+				okAll = false
+				why = "`return false` under the condition " + src(d) + ", which does not imply equal lengths: pairs of different length are left unordered (the relation is no longer 'longer first' and not even transitive)"
+			}
+		}
+		return true
+	})
 	for _, r := range returnsOf(lit.Body) {
 		n++
 		if len(r.Results) != 1 {
